@@ -1437,8 +1437,13 @@ impl Stdfs {
     /// ```
     pub fn remove_all<T: AsRef<Path>>(path: T) -> RvResult<()> {
         let path = Stdfs::abs(path)?;
-        if Stdfs::exists(&path) {
-            fs::remove_dir_all(path)?;
+        if let Ok(meta) = fs::symlink_metadata(&path) {
+            // Files and links, which are never followed, are simply removed
+            if meta.is_dir() {
+                fs::remove_dir_all(path)?;
+            } else {
+                fs::remove_file(path)?;
+            }
         }
         Ok(())
     }
